@@ -5,6 +5,11 @@
   pass leaves, `sel` the documents the filter selects.
 -/
 import Proofs.C13
+import Proofs.C13ExtSeed
+import Proofs.C13ExtUpsert
+import Proofs.C13ExtId2
+import Proofs.C13ExtId3
+import Proofs.C13ExtPaths
 
 namespace MongoModel.Props.C13
 open MongoModel MongoModel.Spec
@@ -120,5 +125,252 @@ example : let ss : Fields := [("a", .int 2), ("b", .doc [("$gt", .int 5)]), ("c"
     (ss.all (fun kv => !kv.1.toList.contains '.' && !kv.1.startsWith "$") &&
       decide ((dkeys ss).Nodup) &&
       (discardOps (.doc ss)).1 == .doc [("a", .int 2), ("c", .int 7)]) = true := by decide +kernel
+
+/-! ## Extension: the last clause of C13 — "when the filter consists of equality conditions that
+    the update does not overwrite, the new document is matched by that same filter afterwards" —
+    and which `_id` the new document gets.
+
+    Shapes (Spec/UpsertExt.lean): `plainEqualities ss` = every key of the filter is a non-empty
+    top-level field name (no dot, no leading `$`) and every value a scalar; `plainKeys ss` = the
+    same on the keys only (any conditions); `isOperatorUpdate` / `isReplacement` / `leavesId`
+    for the update; `HoldsAll ss fs` = the document `fs` holds `k: v` for every `(k, v)` of `ss`. -/
+
+/-- Any document that holds `k: v` for every condition `k: v` of a plain-equality filter is
+    matched by the filter (no distinctness of keys needed, `null` included: a scalar is `==` to
+    itself). -/
+theorem holds_all_matches (ss fs : Fields) (hk : plainEqualities ss = true) (hf : HoldsAll ss fs) :
+    filterApplies (.doc ss) (.doc fs) = .ok true :=
+  Proofs.C13Ext.holds_matches ss fs hk hf
+
+/-- The natural statement — scalar equality conditions on undotted, non-`$` keys — WITHOUT the
+    requirement that the keys are non-empty. -/
+def seed_matches_filter_full : Prop :=
+  ∀ ss : Fields,
+    ss.all (fun kv => !kv.1.toList.contains '.' && !kv.1.startsWith "$" && isScalar kv.2) = true →
+    (dkeys ss).Nodup → filterApplies (.doc ss) (discardOps (.doc ss)).1 = .ok true
+
+/-- It is false of the code (new finding `upsert-empty-key`): for the filter `{"": 2}` the seed is
+    `{"": 2}`, but the matcher reads the empty key as "the document itself", so the seed is not
+    matched.  On the real code `update_one({'': 2}, {'$set': {'e': 9}}, upsert=True)` inserts
+    `{'': 2, 'e': 9, …}`, `find({'': 2})` returns nothing and a second identical call inserts a
+    second document. -/
+theorem seed_matches_filter_full_fails : ¬ seed_matches_filter_full := by
+  intro h
+  have := h [("", .int 2)] (by decide +kernel) (by decide +kernel)
+  exact absurd this (by decide +kernel)
+
+/-- **The seed satisfies its filter** (partial: keys non-empty).  For a filter of plain equality
+    conditions with pairwise distinct keys, `expandDots` leaves the filter as it is, and the seed
+    `discardOps` builds from it is matched by the filter — the seed proper, and the seed built
+    after an `_id` (any value: generated, or taken from the update) was added to a filter that has
+    none, which is what the upsert path does. -/
+theorem seed_matches_filter_partial (ss : Fields) (hk : plainEqualities ss = true) (hd : (dkeys ss).Nodup) :
+    expandDots ss = .ok ss ∧
+    filterApplies (.doc ss) (discardOps (.doc ss)).1 = .ok true ∧
+    (∀ idv, dget "_id" ss = none →
+      expandDots (dset "_id" idv ss) = .ok (dset "_id" idv ss) ∧
+      filterApplies (.doc ss) (discardOps (.doc (dset "_id" idv ss))).1 = .ok true) :=
+  Proofs.C13Ext.seed_matches_filter ss hk hd
+
+/-- non-vacuity: a three-condition filter (a number, `null`, an aware datetime) is a plain-equality
+    filter with distinct keys; its seed is the filter itself -/
+example : let ss : Fields := [("a", .int 2), ("b", .null), ("c", .date 1500 (some 60))]
+    (plainEqualities ss && decide ((dkeys ss).Nodup) &&
+      (discardOps (.doc ss)).1 == .doc ss) = true := by decide +kernel
+
+/-- **The clause itself.**  Filter `ss`: plain equality conditions, distinct keys.  Update `ufs`:
+    an operator update none of whose paths starts at a key of the filter (`Spec.addressed`; it MAY
+    address `_id` when the filter has no `_id`).  If the upsert call succeeds and reports an
+    upserted `_id`, then exactly one document `(id, fs)` was appended, it carries that `_id`, it
+    holds every pair of the (normalised) filter, it is matched by the filter, and it is the one
+    document of the new collection the filter selects — so a following `find(filter)` returns
+    exactly it (`Props.C10.find_is_selection`).
+    The clause does not apply to replacements: a replacement overwrites every field of the seed
+    but `_id` (see the example below). -/
+theorem upsert_then_matched (cfg : Cfg) (now : Int) (c c1 c' : Coll) (ss ufs : Fields)
+    (multi : Bool) (sel : List (Val × Val)) (r : UpdateResult)
+    (he : expire now c = .ok c1) (hne : c1.docs ≠ []) (hn : c.ttlIndexes = [])
+    (hi : IdInv c) (hg : GoodKeys c)
+    (hk : plainEqualities ss = true) (hd : (dkeys ss).Nodup)
+    (hu : isOperatorUpdate ufs = true)
+    (hx : ∀ k ∈ dkeys ss, k ∉ addressed ufs)
+    (hs : selectDocs (patchDT (.doc ss)) c1.docs = .ok sel)
+    (h : applyUpdateColl cfg now c (.doc ss) (.doc ufs) true multi = (c', .ok r))
+    (hup : r.upserted.isSome = true) :
+    ∃ id fs, r.upserted = some id ∧ c'.docs = c1.docs ++ [(id, .doc fs)] ∧
+      dget "_id" fs = some id ∧
+      HoldsAll (patchFields ss) fs ∧
+      filterApplies (patchDT (.doc ss)) (.doc fs) = .ok true ∧
+      selectDocs (patchDT (.doc ss)) c'.docs = .ok [(id, .doc fs)] :=
+  Proofs.C13Ext.upsert_then_matched cfg now c c1 c' ss ufs multi sel r he hne hn hi hg hk hd hu hx hs h hup
+
+/-- non-vacuity: on `exColl` (hypotheses: `exColl_hyps` above) the filter `{a: 2, b: "x"}` with the
+    update `{$set: {e: 9}, $inc: {"n.m": 1}}` satisfies every decidable hypothesis, nothing is
+    selected, the call succeeds with an upserted `_id`, and the new document is matched -/
+example : let ss : Fields := [("a", .int 2), ("b", .str "x")]
+    let ufs : Fields := [("$set", .doc [("e", .int 9)]), ("$inc", .doc [("n.m", .int 1)])]
+    (plainEqualities ss && decide ((dkeys ss).Nodup) && isOperatorUpdate ufs &&
+      decide (∀ k ∈ dkeys ss, k ∉ addressed ufs) &&
+      (match selectDocs (patchDT (.doc ss)) Proofs.C13.exColl.docs,
+          applyUpdateColl {} 0 Proofs.C13.exColl (.doc ss) (.doc ufs) true false with
+       | .ok sel, (c', .ok r) => sel.isEmpty && r.upserted.isSome &&
+          (c'.docs.map (·.2))[1]? == some (.doc [("a", .int 2), ("b", .str "x"), ("_id", .oid 1000),
+            ("e", .int 9), ("n", .doc [("m", .int 1)])])
+       | _, _ => false)) = true := by decide +kernel
+
+/-- the restriction is needed: when the update overwrites a field of the filter, or is a
+    replacement, the new document is NOT matched by the filter -/
+example :
+    (match applyUpdateColl {} 0 Proofs.C13.exColl (.doc [("a", .int 3)]) (.doc [("$inc", .doc [("a", .int 9)])]) true false,
+           applyUpdateColl {} 0 Proofs.C13.exColl (.doc [("a", .int 3)]) (.doc [("z", .int 9)]) true false with
+     | (c', .ok _), (c'', .ok _) =>
+        (selectDocs (.doc [("a", .int 3)]) c'.docs).toOption.map (·.length) == some 0 &&
+        (selectDocs (.doc [("a", .int 3)]) c''.docs).toOption.map (·.length) == some 0
+     | _, _ => false) = true := by decide +kernel
+
+/-- **The upserted `_id`, 1: the filter's.**  Filter with top-level keys only (any conditions),
+    distinct keys, and a scalar `_id: v`; update that leaves `_id` alone (`leavesId`: an operator
+    update not addressing `_id`, or a replacement without `_id`).  The reported `_id` is `v`,
+    normalised.  (An update that `$set`s `_id` wins over the filter: see `upsert_id_from_set`.) -/
+theorem upsert_id_from_filter (cfg : Cfg) (now : Int) (c c1 c' : Coll) (ss ufs : Fields)
+    (multi : Bool) (sel : List (Val × Val)) (r : UpdateResult) (id v : Val)
+    (he : expire now c = .ok c1) (hne : c1.docs ≠ []) (hn : c.ttlIndexes = [])
+    (hi : IdInv c) (hg : GoodKeys c)
+    (hk : plainKeys ss = true) (hd : (dkeys ss).Nodup)
+    (hv : dget "_id" ss = some v) (hsv : isScalar v = true) (hl : leavesId ufs = true)
+    (hs : selectDocs (patchDT (.doc ss)) c1.docs = .ok sel)
+    (h : applyUpdateColl cfg now c (.doc ss) (.doc ufs) true multi = (c', .ok r))
+    (hup : r.upserted = some id) : id = patchDT v :=
+  Proofs.C13Ext.upsert_id_from_filter cfg now c c1 c' ss ufs multi sel r id v he hne hn hi hg hk hd hv hsv hl hs h hup
+
+/-- **2: the replacement's.**  No `_id` in the filter, a replacement (distinct keys) carrying a
+    scalar `_id: w`: the reported `_id` is `w`, normalised. -/
+theorem upsert_id_from_replacement (cfg : Cfg) (now : Int) (c c1 c' : Coll) (ss ufs : Fields)
+    (multi : Bool) (sel : List (Val × Val)) (r : UpdateResult) (id w : Val)
+    (he : expire now c = .ok c1) (hne : c1.docs ≠ []) (hn : c.ttlIndexes = [])
+    (hi : IdInv c) (hg : GoodKeys c)
+    (hk : plainKeys ss = true) (hd : (dkeys ss).Nodup)
+    (hv : dget "_id" ss = none)
+    (hr : isReplacement ufs = true) (hw : dget "_id" ufs = some w) (hsw : isScalar w = true)
+    (hnd : (dkeys ufs).Nodup)
+    (hs : selectDocs (patchDT (.doc ss)) c1.docs = .ok sel)
+    (h : applyUpdateColl cfg now c (.doc ss) (.doc ufs) true multi = (c', .ok r))
+    (hup : r.upserted = some id) : id = patchDT w :=
+  Proofs.C13Ext.upsert_id_from_replacement cfg now c c1 c' ss ufs multi sel r id w he hne hn hi hg hk hd hv hr hw hsw hnd hs h hup
+
+/-- **3: the one the update `$set`s / `$setOnInsert`s.**  The update is an operator update
+    `pre ++ [op: body] ++ post` with `op` = `$set` or `$setOnInsert`, `body` holds `_id: w` (any
+    value) and no other path starting at `_id`, and neither `pre` nor `post` addresses `_id`.  The
+    filter may have a scalar `_id` or none: the reported `_id` is `w`, normalised — on an insert
+    mongomock lets the update overwrite the filter's `_id`. -/
+theorem upsert_id_from_set (cfg : Cfg) (now : Int) (c c1 c' : Coll) (ss pre post body : Fields)
+    (op : String) (multi : Bool) (sel : List (Val × Val)) (r : UpdateResult) (id w : Val)
+    (he : expire now c = .ok c1) (hne : c1.docs ≠ []) (hn : c.ttlIndexes = [])
+    (hi : IdInv c) (hg : GoodKeys c)
+    (hk : plainKeys ss = true) (hd : (dkeys ss).Nodup)
+    (hv : ∀ v, dget "_id" ss = some v → isScalar v = true)
+    (hop : op = "$set" ∨ op = "$setOnInsert")
+    (hall : (pre ++ (op, .doc body) :: post).all (fun kv => kv.1.startsWith "$") = true)
+    (hpre : "_id" ∉ addressed pre) (hpost : "_id" ∉ addressed post)
+    (hw : dget "_id" body = some w)
+    (hf : (dkeys body).filter (fun k => headOf k = "_id") = ["_id"])
+    (hs : selectDocs (patchDT (.doc ss)) c1.docs = .ok sel)
+    (h : applyUpdateColl cfg now c (.doc ss) (.doc (pre ++ (op, .doc body) :: post)) true multi = (c', .ok r))
+    (hup : r.upserted = some id) : id = patchDT w :=
+  Proofs.C13Ext.upsert_id_from_set cfg now c c1 c' ss pre post body op multi sel r id w he hne hn hi hg hk hd hv hop hall hpre hpost hw hf hs h hup
+
+/-- **4: otherwise a fresh ObjectId.**  No `_id` in the filter and an update that leaves `_id`
+    alone: the reported `_id` is the next generated ObjectId of the collection. -/
+theorem upsert_id_fresh (cfg : Cfg) (now : Int) (c c1 c' : Coll) (ss ufs : Fields)
+    (multi : Bool) (sel : List (Val × Val)) (r : UpdateResult) (id : Val)
+    (he : expire now c = .ok c1) (hne : c1.docs ≠ []) (hn : c.ttlIndexes = [])
+    (hi : IdInv c) (hg : GoodKeys c)
+    (hk : plainKeys ss = true) (hd : (dkeys ss).Nodup)
+    (hv : dget "_id" ss = none) (hl : leavesId ufs = true)
+    (hs : selectDocs (patchDT (.doc ss)) c1.docs = .ok sel)
+    (h : applyUpdateColl cfg now c (.doc ss) (.doc ufs) true multi = (c', .ok r))
+    (hup : r.upserted = some id) : id = .oid c.nextOid :=
+  Proofs.C13Ext.upsert_id_fresh cfg now c c1 c' ss ufs multi sel r id he hne hn hi hg hk hd hv hl hs h hup
+
+/-- the upserted `_id` of a call on `exColl`, `none` when the call fails or upserts nothing -/
+def exUpsertedId (f u : Val) : Option Val :=
+  match applyUpdateColl {} 0 Proofs.C13.exColl f u true false with
+  | (_, .ok r) => r.upserted
+  | _ => none
+
+/-- non-vacuity of the four `_id` theorems on `exColl`: the filter's (an aware datetime, reported
+    normalised; also under a replacement without `_id`), the replacement's, the `$setOnInsert`'s
+    (also against a filter `_id`), a fresh one; the decidable hypotheses hold on these inputs -/
+example :
+    (plainKeys [("_id", .date 1500 (some 1)), ("a", .doc [("$gt", .int 5)])] &&
+     leavesId [("$set", .doc [("e", .int 9)])] && leavesId [("z", .int 1)] && leavesId [] &&
+     exUpsertedId (.doc [("_id", .date 1500 (some 1)), ("a", .doc [("$gt", .int 5)])])
+        (.doc [("$set", .doc [("e", .int 9)])]) == some (patchDT (.date 1500 (some 1))) &&
+     exUpsertedId (.doc [("_id", .int 7)]) (.doc [("z", .int 1)]) == some (.int 7) &&
+     exUpsertedId (.doc [("_id", .int 7)]) (.doc []) == some (.int 7) &&
+     isReplacement [("z", .int 1), ("_id", .str "k")] &&
+     exUpsertedId (.doc [("a", .int 2)]) (.doc [("z", .int 1), ("_id", .str "k")]) == some (.str "k") &&
+     decide ((dkeys ([("_id", .int 9), ("f.g", .int 1)] : Fields)).filter (fun k => headOf k = "_id") = ["_id"]) &&
+     decide ("_id" ∉ addressed [("$set", .doc [("e", .int 9)])]) &&
+     exUpsertedId (.doc [("a", .int 2)]) (.doc [("$set", .doc [("e", .int 9)]),
+        ("$setOnInsert", .doc [("_id", .int 9), ("f.g", .int 1)])]) == some (.int 9) &&
+     exUpsertedId (.doc [("_id", .int 7)]) (.doc [("$set", .doc [("_id", .int 9)])]) == some (.int 9) &&
+     exUpsertedId (.doc [("a", .int 2)]) (.doc [("$set", .doc [("e", .int 9)])])
+        == some (.oid Proofs.C13.exColl.nextOid) &&
+     exUpsertedId (.doc [("a", .int 2)]) (.doc [("z", .int 1)]) == some (.oid Proofs.C13.exColl.nextOid))
+    = true := by decide +kernel
+
+/-- the hypothesis "leaves `_id` alone" of `upsert_id_fresh` is needed: an update that `$unset`s
+    `_id` removes the seed's generated ObjectId and `insertDoc` generates the next one -/
+example : (exUpsertedId (.doc [("a", .int 5)]) (.doc [("$unset", .doc [("_id", .int 1)])])
+    == some (.oid (Proofs.C13.exColl.nextOid + 1))) = true := by decide +kernel
+
+/-! ## Extension: the seed of ANY filter whose keys do not conflict (generalises
+    `seed_plain_equalities` and `seed_expands_dots` to dotted paths of any depth).
+
+    `prefixFree ss`: no key is a dotted prefix of (or equal to) another; `noDollarParts ss`: no
+    component of a key is an operator (so no top-level `$and` / `$or`); `getPath`: reading a dotted
+    path (Spec/UpdateSpec.lean).  The success of `expandDots` is a hypothesis: it is what the
+    upsert path needs anyway (the examples show it holds on conflict-free filters). -/
+
+/-- **The seed at every path.**  When `_expand_dots` succeeds on a filter with prefix-free keys
+    without operator components, the expanded filter holds at the path of every item its
+    condition, and the seed holds there what `_discard_operators` leaves of that condition
+    (nothing when it is dropped). -/
+theorem seed_at_paths (ss ex : Fields) (h : expandDots ss = .ok ex) (hp : prefixFree ss)
+    (hnd : noDollarParts ss = true) :
+    (∀ kv ∈ ss, getPath (splitDots kv.1) (.doc ex) = some kv.2) ∧
+    (∀ kv ∈ ss, getPath (splitDots kv.1) (discardOps (.doc ex)).1 =
+        if (discardOps kv.2).2 then none else some (discardOps kv.2).1) :=
+  Proofs.C13Ext.seed_paths ss ex h hp hnd
+
+/-- … in particular: an equality condition `p: v` (scalar `v`) puts `v` at the path `p`, `p: {$eq:
+    x}` puts `x` there, and an operator condition leaves nothing at its path. -/
+theorem seed_at_paths_cases (ss ex : Fields) (h : expandDots ss = .ok ex) (hp : prefixFree ss)
+    (hnd : noDollarParts ss = true) :
+    (∀ k v, (k, v) ∈ ss → isScalar v = true →
+        getPath (splitDots k) (discardOps (.doc ex)).1 = some v) ∧
+    (∀ k x, (k, Val.doc [("$eq", x)]) ∈ ss →
+        getPath (splitDots k) (discardOps (.doc ex)).1 = some x) ∧
+    (∀ k ops, (k, Val.doc ops) ∈ ss → isOps ops = true → dget "$eq" ops = none →
+        getPath (splitDots k) (discardOps (.doc ex)).1 = none) :=
+  Proofs.C13Ext.seed_paths_cases ss ex h hp hnd
+
+/-- non-vacuity: a filter with paths of depth 3, 2, 1, an operator condition and an `$eq`, sharing
+    prefixes, is prefix-free without operator components, expands, and its seed is as stated -/
+example : let ss : Fields := [("a.b.c", .int 1), ("a.b.d", .doc [("$gt", .int 2)]), ("a.e", .str "x"),
+      ("f", .doc [("$eq", .int 4)]), ("g.h", .doc [("$in", .arr [.int 1])])]
+    (decide (prefixFree ss) && noDollarParts ss &&
+      (match expandDots ss with
+       | .ok ex => (discardOps (.doc ex)).1 == .doc [("a", .doc [("b", .doc [("c", .int 1)]), ("e", .str "x")]),
+            ("f", .int 4)]
+       | _ => false)) = true := by decide +kernel
+
+/-- the prefix condition is needed: `{a: {c: 2}, "a.b": 1}` expands without error, but the second
+    item is written INTO the sub-document of the first, which no longer holds its own condition -/
+example : (decide (prefixFree [("a", .doc [("c", .int 2)]), ("a.b", .int 1)]) == false &&
+    (match expandDots [("a", .doc [("c", .int 2)]), ("a.b", .int 1)] with
+     | .ok ex => getPath ["a"] (.doc ex) == some (.doc [("c", .int 2), ("b", .int 1)])
+     | _ => false)) = true := by decide +kernel
 
 end MongoModel.Props.C13
